@@ -64,6 +64,13 @@ func (tr *Tr) afterCallHints(fr *Frame, key string, sig *types.Signature, res Va
 		if res != nil {
 			tr.bindResults(env, sig, res)
 		}
+		if ac.Assume {
+			tr.specMode++
+			f := tr.evalBool(env, ac.Clause.Expr)
+			tr.specMode--
+			tr.assume(st, f)
+			continue
+		}
 		goal := tr.evalBool(env, ac.Clause.Expr)
 		lbl := ac.Clause.Label
 		if lbl == "" {
@@ -79,6 +86,9 @@ func (tr *Tr) callStatic1(fr *Frame, f *ssa.Function, bind []Value, args []Value
 		return v
 	}
 	fc := tr.g.contracts.Funcs[key]
+	if fc != nil && fc.Iterates != nil && bind == nil {
+		return tr.iterateCall(fr, key, fc, f, args, st)
+	}
 	if fc != nil && !fc.Inline && (len(fc.Requires) > 0 || len(fc.Ensures) > 0 || fc.Trusted || fc.NoReturn || fc.Pure) && bind == nil {
 		return tr.callContract(key, fc, f, f.Signature, nil, args, resT, st)
 	}
@@ -161,6 +171,16 @@ func (tr *Tr) callContract(key string, fc *FuncContract, f *ssa.Function, sig *t
 		tr.oblCount["call:"+key]++
 		tr.oblige(st, "call", fmt.Sprintf("%s.%s@%d", key, lbl, tr.oblCount["call:"+key]), rq.Props, goal, "precondition of "+key+": "+rq.Src)
 	}
+	for _, a := range args {
+		if iv, ok := a.(If); ok {
+			tr.emitIfaceBindings(st, iv)
+		}
+	}
+	if recv != nil {
+		if iv, ok := recv.V.(If); ok {
+			tr.emitIfaceBindings(st, iv)
+		}
+	}
 	if fc.NoReturn {
 		tr.oblige(st, "panic", "", nil, "false", "call to "+key+" (never returns) is unreachable")
 		st.guard = "false"
@@ -204,6 +224,7 @@ func (tr *Tr) callContract(key string, fc *FuncContract, f *ssa.Function, sig *t
 
 func (tr *Tr) havocMods(st, pre *State, mods map[string]modInfo) {
 	anyAlloc := false
+	tr.noteFrameTop(pre.top)
 	for _, name := range sortedKeys(mods) {
 		mi := mods[name]
 		if mi.sort == "" {
@@ -217,6 +238,7 @@ func (tr *Tr) havocMods(st, pre *State, mods map[string]modInfo) {
 		if !mi.mutates {
 			// allocation-only effect: pre-existing objects keep their contents
 			tr.sc.fact(fmt.Sprintf("(forall ((r Int)) (! (=> (< r %s) (= (select %s r) (select %s r))) :pattern ((select %s r))))", pre.top, sym, oldT, sym))
+			tr.allocParent[sym] = oldT
 		}
 		anyAlloc = true
 	}
@@ -480,6 +502,7 @@ func (tr *Tr) frameFormulas(fc *FuncContract, mods map[string]modInfo, env *CEnv
 			if oldT == newT {
 				continue
 			}
+			tr.noteFrameTop(pre.top)
 			conds := []string{"(< 0 o)", "(< o " + pre.top + ")"}
 			for _, r := range refs {
 				conds = append(conds, sNot(sEq("o", r)))
@@ -489,4 +512,332 @@ func (tr *Tr) frameFormulas(fc *FuncContract, mods map[string]modInfo, env *CEnv
 		}
 	}
 	return out
+}
+
+// emitIfaceBindings: for an interface value whose dynamic type is statically known and whose methods have verified
+// contracts marked "implements <iface method>", state (for the current heap) that whatever the interface contract says
+// about a call's results, the implementation's verified postcondition holds for them too:
+//     forall params, results :: iface_post(self, params, results) ==> impl_post(recv, params, results)
+// The abstract functions of interface contracts take the heap versions they read as arguments, so bindings made in
+// different states do not interfere.
+func (tr *Tr) emitIfaceBindings(st *State, iv If) {
+	if !isLiteral(iv.Tag) || iv.Tag == "0" {
+		return
+	}
+	var n int
+	fmt.Sscan(iv.Tag, &n)
+	t := tr.g.tagTypes[n]
+	if t == nil {
+		return
+	}
+	ms := tr.g.prog.MethodSets.MethodSet(t)
+	for i := 0; i < ms.Len(); i++ {
+		f := tr.g.prog.MethodValue(ms.At(i))
+		if f == nil {
+			continue
+		}
+		ikey := tr.g.funcKey(f)
+		ifc := tr.g.contracts.Funcs[ikey]
+		if ifc == nil || ifc.Implements == "" {
+			continue
+		}
+		afc := tr.g.contracts.Funcs[ifc.Implements]
+		if afc == nil {
+			panic(subsetErr(ikey + " implements unknown interface contract " + ifc.Implements))
+		}
+		key := "bind|" + ikey + "|" + iv.Val + "|" + tr.stateKey(st)
+		if tr.typeFactDone[key] {
+			continue
+		}
+		tr.typeFactDone[key] = true
+		tr.assumptions["interface binding: "+ifc.Implements+" is implemented by "+ikey+" (whose contract is verified against its body)"] = true
+		sig := f.Signature
+		var decls []string
+		ienv := &CEnv{vars: map[string]EV{}, st: st, old: st, pkg: tr.g.contractPkg(ifc.Implements, nil)}
+		menv := &CEnv{vars: map[string]EV{}, st: st, old: st, pkg: tr.g.contractPkg(ikey, f)}
+		ienv.vars["self"] = EV{V: iv, T: nil}
+		// receiver of the implementation
+		rt := sig.Recv().Type()
+		var rv Value = Sc{T: iv.Val}
+		if kindOf(rt) != kInt {
+			continue
+		}
+		menv.vars[f.Params[0].Name()] = EV{V: rv, T: rt}
+		imethod := ms.At(i).Obj().(*types.Func).Type().(*types.Signature)
+		bindVar := func(name string, t types.Type) Value {
+			tr.fresh++
+			sym := smtName(fmt.Sprintf("%s?%d", name, tr.fresh))
+			if kindOf(t) == kBool {
+				decls = append(decls, "("+sym+" Bool)")
+				return boolV(sym)
+			}
+			if kindOf(t) != kInt {
+				panic(subsetErr("interface binding with non-scalar parameter/result"))
+			}
+			decls = append(decls, "("+sym+" Int)")
+			return Sc{T: sym}
+		}
+		for j := 0; j < imethod.Params().Len(); j++ {
+			pt := imethod.Params().At(j).Type()
+			v := bindVar("a", pt)
+			menv.vars[f.Params[j+1].Name()] = EV{V: v, T: pt}
+			// interface-side parameter names come from the interface's method declaration
+			ienv.vars[tr.g.ifaceParamName(ifc.Implements, j)] = EV{V: v, T: pt}
+		}
+		// If the interface contract determines each result by an equation "result == expr", substitute those
+		// expressions for the results (no quantification over results is needed then).
+		rs := imethod.Results()
+		isig := tr.g.ifaceSig(ifc.Implements)
+		resNames := map[string]int{}
+		for j := 0; j < rs.Len(); j++ {
+			if rs.Len() == 1 {
+				resNames["result"] = 0
+			}
+			resNames[fmt.Sprintf("result%d", j)] = j
+			if n := isig.Results().At(j).Name(); n != "" && n != "_" {
+				resNames[n] = j
+			}
+		}
+		determined := make([]Value, rs.Len())
+		var walk func(e CExpr)
+		walk = func(e CExpr) {
+			b, ok := e.(*CBinary)
+			if !ok {
+				return
+			}
+			if b.Op == "&&" {
+				walk(b.L)
+				walk(b.R)
+				return
+			}
+			if b.Op != "==" {
+				return
+			}
+			for _, pr := range [][2]CExpr{{b.L, b.R}, {b.R, b.L}} {
+				if id, ok := pr[0].(*CIdent); ok {
+					if j, isRes := resNames[id.Name]; isRes && determined[j] == nil {
+						tr.specMode++
+						v, t := tr.evalC(ienv, pr[1])
+						tr.specMode--
+						determined[j] = tr.rval(ienv, v, t)
+						return
+					}
+				}
+			}
+		}
+		for _, en := range afc.Ensures {
+			walk(en.Expr)
+		}
+		allDet := rs.Len() > 0
+		for _, d := range determined {
+			allDet = allDet && d != nil
+		}
+		var res Value
+		if allDet {
+			if rs.Len() == 1 {
+				res = determined[0]
+			} else {
+				res = Tup{E: determined}
+			}
+		} else {
+			switch rs.Len() {
+			case 0:
+			case 1:
+				res = bindVar("r", rs.At(0).Type())
+			default:
+				tp := Tup{}
+				for j := 0; j < rs.Len(); j++ {
+					tp.E = append(tp.E, bindVar("r", rs.At(j).Type()))
+				}
+				res = tp
+			}
+		}
+		tr.bindResults(ienv, isig, res)
+		tr.bindResults(menv, sig, res)
+		tr.specMode++
+		var ipost, mpost []string
+		if !allDet {
+			for _, en := range afc.Ensures {
+				ipost = append(ipost, tr.evalBool(ienv, en.Expr))
+			}
+		}
+		for _, rq := range ifc.Requires {
+			ipost = append(ipost, tr.evalBool(menv, rq.Expr))
+		}
+		for _, en := range ifc.Ensures {
+			mpost = append(mpost, tr.evalBool(menv, en.Expr))
+		}
+		tr.specMode--
+		body := sImp(sAnd(ipost...), sAnd(mpost...))
+		if len(decls) == 0 {
+			tr.sc.fact(body)
+		} else {
+			pats := ""
+			if allDet {
+				// trigger on each abstract result term of the interface contract
+				for _, d := range determined {
+					if sc, ok := d.(Sc); ok && strings.HasPrefix(sc.T, "(|U$") {
+						pats += " :pattern (" + sc.T + ")"
+					}
+				}
+			}
+			if pats != "" {
+				body = "(! " + body + pats + ")"
+			}
+			tr.sc.fact(fmt.Sprintf("(forall (%s) %s)", strings.Join(decls, " "), body))
+		}
+	}
+}
+
+// stateKey identifies the heap versions of a state (for de-duplicating per-state facts).
+func (tr *Tr) stateKey(st *State) string {
+	var b strings.Builder
+	for _, k := range sortedKeys(st.vars) {
+		if s, ok := st.vars[k].(Sc); ok {
+			b.WriteString(s.T)
+		}
+	}
+	return b.String()
+}
+
+// iterateCall translates a call to a function whose contract says "iterates <map>": the callee invokes its function
+// argument once per key of the map, in ascending key order, passing (key, map[key]) (the value is looked up at the time
+// of each invocation). With a closure literal as argument the call is verified like a loop whose body is the closure
+// and whose invariant is supplied by the caller ("visit K invariant ..."); iter, seen(id), key(i), cntsofar are
+// available in the invariant.
+func (tr *Tr) iterateCall(fr *Frame, key string, fc *FuncContract, f *ssa.Function, args []Value, st *State) Value {
+	var fv *FnV
+	for _, a := range args {
+		if x, ok := a.(*FnV); ok {
+			fv = x
+		}
+	}
+	if fv == nil || fr == nil {
+		panic(subsetErr("iterating call " + key + " needs a statically known function argument"))
+	}
+	for _, rq := range fc.Requires {
+		env := &CEnv{vars: map[string]EV{}, st: st, old: st, pkg: tr.g.contractPkg(key, f)}
+		tr.bindParams(env, f, f.Signature, nil, args)
+		tr.oblCount["call:"+key]++
+		tr.oblige(st, "call", fmt.Sprintf("%s.L%d@%d", key, rq.Line, tr.oblCount["call:"+key]), rq.Props, tr.evalBool(env, rq.Expr), "precondition of "+key+": "+rq.Src)
+	}
+	cenv := &CEnv{vars: map[string]EV{}, st: st, old: st, pkg: tr.g.contractPkg(key, f)}
+	tr.bindParams(cenv, f, f.Signature, nil, args)
+	tr.specMode++
+	mv, mt0 := tr.evalC(cenv, fc.Iterates.Expr)
+	tr.specMode--
+	mt, ok := mt0.Underlying().(*types.Map)
+	if !ok {
+		panic(subsetErr("iterates: not a map"))
+	}
+	m := tr.asSc(tr.rval(cenv, mv, mt0), mt0).T
+	tr.nilMapFacts(st, mt, m)
+	// sorted enumeration of the key set at call time
+	tr.fresh++
+	id := tr.fresh
+	e := &mapEnum{id: id, mref: m, mtyp: mt}
+	e.dom = sSel(tr.mapDom(st, mt), m)
+	e.n = sSel(tr.mapLen(st, mt), m)
+	e.pick = smtName(fmt.Sprintf("key!%d", id))
+	e.rank = smtName(fmt.Sprintf("rank!%d", id))
+	e.counter = fmt.Sprintf("I$%d", id)
+	tr.sc.declare(e.pick, "(Int) Int")
+	tr.sc.declare(e.rank, "(Int) Int")
+	tr.sc.fact(fmt.Sprintf("(forall ((i Int)) (! (=> (and (<= 0 i) (< i %s)) (and (select %s (%s i)) (= (%s (%s i)) i))) :pattern ((%s i))))", e.n, e.dom, e.pick, e.rank, e.pick, e.pick))
+	tr.sc.fact(fmt.Sprintf("(forall ((k Int)) (! (=> (select %s k) (and (<= 0 (%s k)) (< (%s k) %s) (= (%s (%s k)) k))) :pattern ((%s k)) :pattern ((select %s k))))", e.dom, e.rank, e.rank, e.n, e.pick, e.rank, e.rank, e.dom))
+	// ascending order
+	tr.sc.fact(fmt.Sprintf("(forall ((i Int) (j Int)) (! (=> (and (<= 0 i) (< i j) (< j %s)) (< (%s i) (%s j))) :pattern ((%s i) (%s j))))", e.n, e.pick, e.pick, e.pick, e.pick))
+	li := &loopInfo{enum: e}
+	tr.visitCount++
+	ord := tr.visitCount
+	var invs []*Clause
+	if tr.fc != nil && fr.top {
+		invs = tr.fc.Visits[ord]
+	}
+	lbl := func(inv *Clause) string {
+		l := inv.Label
+		if l == "" {
+			l = fmt.Sprintf("L%d", inv.Line)
+		}
+		return fmt.Sprintf("visit%d.%s", ord, l)
+	}
+	mkEnv := func(s *State) *CEnv {
+		env := tr.frameEnv(fr, s, tr.curBlock, nil, li)
+		env.atIdx = tr.curInstrIdx
+		return env
+	}
+	blk, idx := tr.curBlock, tr.curInstrIdx
+	// 1. invariant on entry (no key visited)
+	st.vars[e.counter] = Sc{T: "0"}
+	for _, inv := range invs {
+		tr.oblige(st, "inv-entry", lbl(inv), inv.Props, tr.evalBool(mkEnv(st), inv.Expr), "visit invariant holds before the first callback: "+inv.Src)
+	}
+	// 2. havoc what the callback may modify
+	mods := map[string]modInfo{}
+	for n, mi := range tr.g.modsetOfFunc(fv.Fn) {
+		if strings.HasPrefix(n, "FREEVAR:") {
+			name := strings.TrimPrefix(n, "FREEVAR:")
+			for i, v := range fv.Fn.FreeVars {
+				if v.Name() == name {
+					if lv, ok := fv.Bind[i].(LocV); ok && lv.L.Kind == LVar {
+						mods[lv.L.Prefix] = modInfo{}
+					}
+				}
+			}
+			continue
+		}
+		mods[n] = mi
+	}
+	if _, bad := mods[mapPrefix(mt)+"#dom"]; bad {
+		panic(subsetErr("callback of " + key + " may add or remove keys of the iterated map"))
+	}
+	hst := st.clone()
+	for _, name := range sortedKeys(mods) {
+		mi := mods[name]
+		if mi.sort != "" {
+			tr.heapVar(hst, name, mi.sort)
+			tr.fresh++
+			sym := smtName(fmt.Sprintf("%s@%d", name, tr.fresh))
+			tr.sc.declare(sym, "() "+mi.sort)
+			hst.vars[name] = Sc{T: sym}
+		} else if cur, ok := hst.vars[name]; ok {
+			hst.vars[name] = tr.havocLike(name, cur, hst)
+		}
+	}
+	nt := tr.freshSym("top", false)
+	tr.sc.fact(sLe(st.top, nt))
+	hst.top = nt
+	for name, mi := range mods {
+		if mi.sort != "" {
+			tr.symTop[hst.vars[name].(Sc).T] = nt
+			tr.heapVersionAxiom(name, hst.vars[name].(Sc).T, mi.sort, nt)
+		}
+	}
+	it := tr.freshSym("it", false)
+	hst.vars[e.counter] = Sc{T: it}
+	tr.assume(hst, fmt.Sprintf("(and (<= 0 %s) (<= %s %s))", it, it, e.n))
+	tr.specMode++
+	for _, inv := range invs {
+		tr.assume(hst, tr.evalBool(mkEnv(hst), inv.Expr))
+	}
+	tr.specMode--
+	// 3. one arbitrary callback invocation
+	body := hst.clone()
+	body.guard = tr.nameBool("g", sAnd(hst.guard, sLt(it, e.n)))
+	k := "(" + e.pick + " " + it + ")"
+	kv := Sc{T: k}
+	tr.assumeTypeFacts(kv, mt.Key(), body)
+	val, _ := tr.mapLoad(body, mt, m, k)
+	tr.inline(fr, fv.Fn, fv.Bind, []Value{kv, val}, body)
+	tr.curBlock, tr.curInstrIdx = blk, idx
+	if body.guard != "false" {
+		body.vars[e.counter] = Sc{T: tr.nameTermInt("it", sAdd(it, "1"))}
+		for _, inv := range invs {
+			tr.oblige(body, "inv-pres", lbl(inv), inv.Props, tr.evalBool(mkEnv(body), inv.Expr), "visit invariant preserved by one callback: "+inv.Src)
+		}
+	}
+	// 4. continue after the last callback
+	hst.guard = tr.nameBool("g", sAnd(hst.guard, sEq(it, e.n)))
+	*st = *hst
+	return nil
 }
